@@ -234,7 +234,7 @@ func (e *env) expire(client int, duty core.Duty) bool {
 
 func (e *env) store(client int, duty core.Duty, entries []entry) *op {
 	set, provides, descs := e.u.buildSet(entries, e.yield)
-	o := &op{Kind: opStore, Client: client, Duty: duty, Entries: descs, Provides: provides, Ans: ansNone}
+	o := &op{Kind: opStore, Client: client, Duty: duty, Entries: descs, Provides: provides, Ans: ansNone, G: goid()}
 	o.Call = e.seq.Add(1)
 	e.add(o)
 	err := e.db.Store(context.Background(), duty, set)
@@ -486,10 +486,14 @@ func goid() int64 {
 	return id
 }
 
-// goroutineStates maps goroutine id -> scheduler wait state ("select", "runnable", "sync.Mutex.Lock", …)
-// from a full stack dump. A goroutine to which a channel value was sent is made runnable at once, so
-// a query goroutine still in state "select" has demonstrably not been handed a response.
-func goroutineStates() map[int64]string {
+// gInfo is one goroutine of a full stack dump.
+type gInfo struct {
+	State string // scheduler wait state: "select", "runnable", "sync.Mutex.Lock", "chan send", …
+	Stack string // header line + frames
+}
+
+// goroutineDump parses a full (stop-the-world, hence consistent) stack dump.
+func goroutineDump() map[int64]gInfo {
 	buf := make([]byte, 16<<20)
 	for {
 		n := runtime.Stack(buf, true)
@@ -499,20 +503,37 @@ func goroutineStates() map[int64]string {
 		}
 		buf = make([]byte, 2*len(buf))
 	}
-	out := map[int64]string{}
-	for _, line := range strings.Split(string(buf), "\n") {
-		if !strings.HasPrefix(line, "goroutine ") {
+	out := map[int64]gInfo{}
+	for _, block := range strings.Split(string(buf), "\n\n") {
+		block = strings.TrimSpace(block)
+		if !strings.HasPrefix(block, "goroutine ") {
 			continue
 		}
 		var id int64
-		var rest string
-		if _, err := fmt.Sscanf(line, "goroutine %d [", &id); err != nil {
+		if _, err := fmt.Sscanf(block, "goroutine %d [", &id); err != nil {
 			continue
 		}
-		if i := strings.IndexByte(line, '['); i >= 0 {
-			rest = strings.TrimSuffix(strings.TrimSpace(line[i+1:]), "]:")
+		line := block
+		if i := strings.IndexByte(block, '\n'); i >= 0 {
+			line = block[:i]
 		}
-		out[id] = rest
+		var state string
+		if i := strings.IndexByte(line, '['); i >= 0 {
+			state = strings.TrimSuffix(strings.TrimSpace(line[i+1:]), "]:")
+		}
+		out[id] = gInfo{State: state, Stack: block}
+	}
+
+	return out
+}
+
+// goroutineStates maps goroutine id -> scheduler wait state ("select", "runnable", "sync.Mutex.Lock", …)
+// from a full stack dump. A goroutine to which a channel value was sent is made runnable at once, so
+// a query goroutine still in state "select" has demonstrably not been handed a response.
+func goroutineStates() map[int64]string {
+	out := map[int64]string{}
+	for id, g := range goroutineDump() {
+		out[id] = g.State
 	}
 
 	return out
